@@ -11,7 +11,7 @@ import (
 func init() {
 	register(stream{
 		name: "policy",
-		rule: "every policy of one statement of depth ≤ 2 built from 5 comparison operators × 5 selectors × 4 literals, like × 2 selectors × 3 patterns, not, binary and/or (both operand orders), all/any over a list selector — each against 16 data trees (maps with present/missing/optional/null fields, ints, floats incl. NaN/±Inf/−0, strings, lists of maps, empty collections, boundary integers ±(2^53−1)), together with the negated statement (so that the four-valued result is observable through Match/PartialMatch); plus grammar-random policies of depth ≤ 4 with 1–3 statements, each also in a randomly permuted form, against random trees. Non-trivial = the statement has a connective/quantifier/negation or a selector that does not resolve. Distinct = distinct protocol lines.",
+		rule: "every policy of one statement of depth ≤ 2 built from 5 comparison operators × 5 selectors × 4 literals, like × 2 selectors × 3 patterns, not, binary and/or (both operand orders), all/any over a list selector — each against 16 data trees; every ordered pair of 28 boundary numbers (floats incl. ±MaxFloat64, denormals, NaN, ±Inf, ±0; ints up to the int64 limits) under each of the five comparison operators (maps with present/missing/optional/null fields, ints, floats incl. NaN/±Inf/−0, strings, lists of maps, empty collections, boundary integers ±(2^53−1)), together with the negated statement (so that the four-valued result is observable through Match/PartialMatch); plus grammar-random policies of depth ≤ 4 with 1–3 statements, each also in a randomly permuted form, against random trees. Non-trivial = the statement has a connective/quantifier/negation or a selector that does not resolve. Distinct = distinct protocol lines.",
 		run:  runPolicyStream,
 		eval: evalPolicy,
 	})
@@ -208,6 +208,17 @@ var polData = []string{
 	"m(61:d8000000000000000,62:d0000000000000000)", "m(6c:l(i2,s78,i1),73:s2a)",
 }
 
+// boundary numbers: floats 0, -0, ±1, 1.5, ±MaxFloat64, ±SmallestNonzero, ±1e308, 2^53, 2^53+2, 0.1+0.2, 0.3,
+// NaN, ±Inf; integers 0, ±1, 2, ±(2^53-1), ±2^31, MaxInt64, MinInt64
+var polNumbers = []string{
+	"d0000000000000000", "d8000000000000000", "d3ff0000000000000", "dbff0000000000000", "d3ff8000000000000",
+	"d7fefffffffffffff", "dffefffffffffffff", "d0000000000000001", "d8000000000000001",
+	"d7fe1ccf385ebc8a0", "dffe1ccf385ebc8a0", "d4340000000000000", "d4340000000000001",
+	"d3fd3333333333334", "d3fd3333333333333", "d7ff8000000000001", "d7ff0000000000000", "dfff0000000000000",
+	"i0", "i1", "i-1", "i2", "i9007199254740991", "i-9007199254740991", "i2147483648", "i-2147483648",
+	"i9223372036854775807", "i-9223372036854775808",
+}
+
 var polOps = []string{"eq", "gt", "ge", "lt", "le"}
 var polSels = []string{".a", ".b?", ".c", ".", ".c?"}
 var polLits = []string{"i1", "i2", "s78", "d3ff8000000000000"}
@@ -264,6 +275,16 @@ func runPolicyStream(c *ctx) error {
 		for _, e := range elemSt {
 			one("A("+hxs(sel)+","+e+")", "policy.all", true)
 			one("E("+hxs(sel)+","+e+")", "policy.any", true)
+		}
+	}
+	// ordering and equality on boundary numbers: every ordered pair of the set, every operator,
+	// same-kind and cross-kind
+	for _, a := range polNumbers {
+		for _, b := range polNumbers {
+			for _, op := range polOps {
+				c.emitG("pol.match P(c"+op+"("+hxs(".")+","+a+")) L "+b, "policy.compare", func(string) bool { return true },
+					func(g string) []string { return []string{"compare:" + strings.ReplaceAll(g, " ", "")} })
+			}
 		}
 	}
 	// random policies
@@ -337,6 +358,9 @@ func randStmt(c *ctx, depth int) (string, string) {
 }
 
 func randLit(c *ctx) string {
+	if c.rng.Chance(1, 4) {
+		return polNumbers[c.rng.Intn(len(polNumbers))]
+	}
 	return []string{"i0", "i1", "i2", "i3", "s78", "s", "d3ff8000000000000", "d7ff8000000000001", "d0000000000000000", "d8000000000000000",
 		"n", "T", "l(i1,i2)", "m(61:i1)", "i9007199254740991", "b01"}[c.rng.Intn(16)]
 }
